@@ -343,12 +343,12 @@ def evaluate(ctx, cases, drv, mdl, rules, tag, rule_cov, stats, max_report=5):
         for j, (i, problems, core, il, ml) in enumerate(pending):
             c = cases[i]
             cls = None
-            if core is not None:
+            if core is not None and any(p.startswith("CORRESPONDENCE") for p in problems):
                 for bits, nm in variants:
                     if parse_model(vout[nm][j] if j < len(vout[nm]) else "<missing>") == core:
                         cls = nm
                         break
-            if cls is None and c["info"]["fault"] == "corpus:math-nonascii-id":
+            if cls is None and c["info"]["fault"] == "corpus:math-nonascii-id" and "DTD" in " ".join(problems):
                 cls = "C04-mathml-nonascii-id"
             if cls:
                 problems.append("NOTE: the implementation behaves exactly as the model does WITHOUT the repair fixes/%s.diff" % cls)
